@@ -29,7 +29,7 @@ ASSUMPTIONS = ["block atoms without any bond (lone-pair sites) are never deleted
                "removals) are not generated",
                "elements are those of the canonical block atoms (first letter rule of the library) and stay with the atom when names are swapped",
                "deleted atoms are non-cut vertices; attached atoms go on heavy atoms",
-               "mutation/modification requests on the residue are covered by the C19 check"]
+               "mutation/modification requests: tripeptides of charmm blocks with the requests of the C19 repair layer (shared code)"]
 _FF = {}
 
 
@@ -333,6 +333,14 @@ def check_pair(ffname, first, second, naming, acc, sample=False, heavy_only=Fals
 
 def work(task):
     common.bind_repo()
+    if task[0] == 'requests':
+        # residues repaired against a reference patched with requested mutations / modifications
+        from props import c19_repair
+        inner = Acc()
+        c19_repair.work_items(task[1], inner)
+        for idx, (sig, desc, case) in enumerate(inner.violations):
+            inner.violations[idx] = ('c04:requested-' + sig.split(':', 1)[1], desc, dict(case, layer='requests'))
+        return inner
     if task[0] == 'pairs':
         acc = Acc()
         for n, (ffname, first, second, naming, heavy_only) in enumerate(task[1]):
@@ -392,11 +400,21 @@ def run(ctx):
     for part in common.pmap(work, [('pairs', chunk) for chunk in common.chunked(pairs, 24)]):
         acc += part
     ctx.layer('residue-pairs', acc)
+    from props import c19_repair
+    items = c19_repair.cases()
+    acc = Acc()
+    for part in common.pmap(work, [('requests', chunk) for chunk in common.chunked(items, max(1, len(items) // 8))]):
+        acc += part
+    ctx.layer('requested-mutations-and-modifications', acc)
 
 
 def replay(case):
     common.bind_repo()
     acc = Acc()
+    if case.get('layer') == 'requests':
+        from props import c19_repair
+        found = c19_repair.replay(case)
+        return [('c04:requested-' + sig.split(':', 1)[1], desc) for sig, desc in found]
     if case.get('layer') == 'pairs':
         check_pair(case['ff'], case['first'], case['second'], case['naming'], acc, heavy_only=case.get('heavy_only', False))
         return [(s, d) for s, d, _ in acc.violations]
